@@ -57,6 +57,7 @@ import GraphiqModel.Proofs.LC
 import GraphiqModel.Proofs.LCSeqTerm
 import GraphiqModel.Proofs.LCRepair
 import GraphiqModel.Proofs.LCAssemble
+import GraphiqModel.Proofs.LCConnectedAgree
 import GraphiqModel.Proofs.LCTotalR
 import GraphiqModel.Proofs.LCGates2
 import GraphiqModel.Proofs.LCTableaux
@@ -622,6 +623,17 @@ example : Connected 3 K3.f := by
   by_cases e : i = j
   · rw [e]; exact Reach.refl _
   · exact Reach.single hi hj (by simp only [K3, BMat.ofAdj]; exact decide_eq_true e)
+
+/-- **on connected graphs the repair changes nothing** (the claim "bit-for-bit the old results" of the patch description, as a
+    theorem): for two connected simple graphs of the same size `n ≥ 1` the repaired `is_lc_equivalent` returns exactly what the
+    whole-graph algorithm returns — the same `Q`, or the same `no` — in every mode and for every value of the draws (a connected
+    graph has the single component `[0, …, n-1]`, the induced pair is the pair itself, and the whole-graph algorithm reads its
+    arguments only below their size) -/
+theorem repaired_agrees_with_the_whole_graph_algorithm_on_connected (a b : BMat) (mode : Mode) (draws : List (List Bool))
+    (hn : 0 < a.r) (hab : a.r = b.r) (ha : Simple a.r a.f) (hb : Simple b.r b.f) (hca : Connected a.r a.f)
+    (hcb : Connected a.r b.f) (out : EqOut) (e : isLcEquivalent a b mode (draws.headD []) = .ok out) :
+    ∃ outR, isLcEquivalentR a b mode draws = .ok outR ∧ outR.sol = out.sol ∧ outR.parts = [out] :=
+  isLcEquivalentR_connected a b mode draws hn hab ha (by rw [hab]; exact hb) hca hcb out e
 
 /-- **the remaining hypothesis, stated precisely** (Van den Nest–Dehaene–De Moor, Phys. Rev. A 70, 034302, Section IV: "if the
     solution space has dimension > 4 it suffices to test the sums of two basis vectors"): for *connected* graphs, a `no` of the
